@@ -244,6 +244,29 @@ func (e *c15Env) gen(t *rapid.T) C15Case {
 		return out
 	}
 	full := append(append([]string{}, alphabet...), "ILLEGAL", "BEYOND")
+	if rapid.IntRange(0, 59).Draw(t, "deepNesting") == 0 {
+		// brackets nested deeper than the parser stack's initial capacity
+		d := rapid.IntRange(90, 210).Draw(t, "depth")
+		open := rapid.SampledFrom([]string{"(", "[", "{"}).Draw(t, "bracket")
+		cl := map[string]string{"(": ")", "[": "]", "{": "}"}[open]
+		toks := []string{"tokId", ":"}
+		for i := 0; i < d; i++ {
+			toks = append(toks, open)
+		}
+		toks = append(toks, "char_lit")
+		nClose := d
+		switch rapid.IntRange(0, 3).Draw(t, "balance") {
+		case 0:
+			nClose = d - 1
+		case 1:
+			nClose = d + 1
+		}
+		for i := 0; i < nClose; i++ {
+			toks = append(toks, cl)
+		}
+		toks = append(toks, ";")
+		return C15Case{Toks: toks}
+	}
 	mode := rapid.IntRange(0, 9).Draw(t, "mode")
 	_, y := e.d.Derive(t, rapid.IntRange(3, 26).Draw(t, "height"))
 	if len(y) > 60 {
